@@ -180,13 +180,17 @@ def w_gv_axes(ctx, rng, i):
     sps = int(rng.choice([2, 4, 8, 16]))
     N = int(rng.choice([5, 10, 16, 33]))
     R1, R2 = (float(v) for v in rng.choice([1e9, 2.5e9, 1e10, 2e10, 4e10], 2, replace=False))
-    n = N * sps
+    n = int([N * sps, N * sps, N * sps // 2 + 1, 3 * N * sps + 1, N * sps + 1][(i // 3) % 5])   # records as long as, shorter and longer than the N*sps points of gv.t
     cls = ["el", "opt1", "opt2"][i % 3]
     x = make(rng, cls, n, "complex", bool(rng.integers(2)))
-    ctx.describe(sps=sps, N=N, R_sequence=[R1, R2], cls=cls)
+    x.signal[..., n // 2:] *= 3.0                   # a non-constant envelope: a statistic taken over part of the record differs
+    ctx.describe(sps=sps, N=N, n=n, R_sequence=[R1, R2], cls=cls)
     with core.quiet():
         T.gv(sps=sps, R=R1, N=N)
         x.w(), x.w(shift=True)                      # w.post decides
+        # nothing a signal computes about itself may depend on the slot count held by gv (postconditions decide)
+        x.power(), x.power("signal"), x.power("noise")
+        x("w"), x("w", shift=True), x("t"), x("f")
         form = int(rng.integers(3))
         if form == 0:
             T.gv(sps=sps, R=R2)
